@@ -3,11 +3,13 @@ package harness
 import (
 	"fmt"
 	"os"
+	"strings"
 	"testing"
 
 	"github.com/opsidian/parsley/combinator"
 	"github.com/opsidian/parsley/data"
 	"github.com/opsidian/parsley/parsley"
+	"github.com/opsidian/parsley/text"
 	"pgregory.net/rapid"
 )
 
@@ -18,10 +20,11 @@ type C03Case struct {
 	In        string   `json:"in"`
 	MemoRules []bool   `json:"memoRules"`
 	Sentence  bool     `json:"sentence"`
+	PreLen    int      `json:"preLen,omitempty"` // > 0: the parsed file follows a file of that length in the file set
 }
 
 func (c *C03Case) Describe() string {
-	return fmt.Sprintf("grammar: %s input: %q memoRules=%v sentence=%v", c.G, c.In, c.MemoRules, c.Sentence)
+	return fmt.Sprintf("grammar: %s input: %q memoRules=%v sentence=%v preceding file of %d bytes", c.G, c.In, c.MemoRules, c.Sentence, c.PreLen)
 }
 
 type outcome struct {
@@ -31,9 +34,14 @@ type outcome struct {
 	Calls  int
 }
 
-func runC03(g *Grammar, in string, memoRules []bool, noMemo bool, probe *Probe, sentence bool) outcome {
+func runC03(g *Grammar, in string, memoRules []bool, noMemo bool, probe *Probe, sentence bool, preLen int) outcome {
 	b := Build(g, BuildOpts{MemoRules: memoRules, NoMemo: noMemo, Probe: probe})
 	ctx, f := NewCtx(in)
+	if preLen > 0 {
+		f = text.NewFile("f", []byte(in))
+		fs := parsley.NewFileSet(text.NewFile("pre", []byte(strings.Repeat("x", preLen))), f)
+		ctx = parsley.NewContext(fs, text.NewReader(f))
+	}
 	var root parsley.Parser = b.NT[0]
 	if sentence {
 		root = combinator.Sentence(root)
@@ -68,10 +76,10 @@ func checkC03(ci interface{}, st *Stats) error {
 	none := make([]bool, len(g.Rules))
 	pp := NewProbe()
 	pp.Bound = false
-	plain := runC03(g, in, none, true, pp, c.Sentence)
+	plain := runC03(g, in, none, true, pp, c.Sentence, c.PreLen)
 	probe := NewProbe()
 	probe.Bound = false
-	m1 := runC03(g, in, c.MemoRules, false, probe, c.Sentence)
+	m1 := runC03(g, in, c.MemoRules, false, probe, c.Sentence, c.PreLen)
 	for k, v := range probe.evals {
 		if v > 1 {
 			who := fmt.Sprintf("expression #%d", k[0])
@@ -86,12 +94,12 @@ func checkC03(ci interface{}, st *Stats) error {
 	}
 	p2 := NewProbe()
 	p2.Bound = false
-	m2 := runC03(g, in, c.MemoRules, false, p2, c.Sentence)
+	m2 := runC03(g, in, c.MemoRules, false, p2, c.Sentence, c.PreLen)
 	if m1 != m2 {
 		return fmt.Errorf("a repeated parse with a fresh context differs:\n first  %+v\n second %+v", m1, m2)
 	}
 	// without any wrapper parsers (the probes must not be what makes it work)
-	m3 := runC03(g, in, c.MemoRules, false, nil, c.Sentence)
+	m3 := runC03(g, in, c.MemoRules, false, nil, c.Sentence, c.PreLen)
 	if m3 != m1 {
 		return fmt.Errorf("the un-instrumented build differs:\n probed %+v\n bare   %+v", m1, m3)
 	}
@@ -116,6 +124,12 @@ func checkC03(ci interface{}, st *Stats) error {
 	if m1.CtxErr != "" {
 		st.Class("context error recorded")
 	}
+	if c.PreLen > 0 {
+		st.Class("file placed after another file")
+	}
+	if hasKind(g, KSuppress) {
+		st.Class("grammar with SuppressError")
+	}
 	if len(probe.asks) == 0 {
 		st.Class("nothing memoized")
 	}
@@ -127,7 +141,7 @@ func init() {
 		ID:      "C03",
 		NewCase: func() interface{} { return &C03Case{} },
 		Gen: func(t *rapid.T) interface{} {
-			o := GenOpts{MaxNT: 3, MaxDepth: 3, Alphabet: "ab", NonMono: true, MaxInput: 6, ExtraMemo: 3, Names: true, LRFree: true, Share: true}
+			o := GenOpts{MaxNT: 3, MaxDepth: 3, Alphabet: "ab", NonMono: true, MaxInput: 6, ExtraMemo: 3, Names: true, LRFree: true, Share: true, MemoLeaves: true, Suppress: rapid.IntRange(0, 2).Draw(t, "suppress") == 0}
 			if thorough() {
 				o.MaxNT, o.MaxInput = 4, 8
 			}
@@ -147,7 +161,11 @@ func init() {
 			if shared {
 				memo[len(memo)-1] = rapid.IntRange(0, 5).Draw(t, "memoShared") > 0
 			}
-			return &C03Case{G: g, In: GenInput(t, g, o), MemoRules: memo, Sentence: rapid.Bool().Draw(t, "sentence")}
+			pre := 0
+			if rapid.IntRange(0, 2).Draw(t, "placed") == 0 {
+				pre = rapid.IntRange(1, 12).Draw(t, "preLen")
+			}
+			return &C03Case{G: g, In: GenInput(t, g, o), MemoRules: memo, Sentence: rapid.Bool().Draw(t, "sentence"), PreLen: pre}
 		},
 		Check: checkC03,
 	})
